@@ -693,7 +693,6 @@ func c2Reflect(c *Ctx) {
 	}
 }
 
-
 // c2LevelEncoders: Lowercase*LevelEncoder / Capital*LevelEncoder take every string they emit from the source of
 // their own case: Level.String / the lower-case colour table, resp. Level.CapitalString / the capital colour table.
 func c2LevelEncoders(c *Ctx) {
